@@ -313,6 +313,51 @@ pub fn run(s: &mut Session, ctx: &Ctx) {
     }
     s.tag_n("sa-runs", cases);
 
+    // ---- SimulatedAnnealing::new (the constructor with the default thread RNG): same clauses,
+    // checked directly (the draws are not replayable, so no model comparison here) ----
+    for i in 0..(if ctx.thorough { 40 } else { 8 }) {
+        let n = 2 + i % 4;
+        let num_fixed = i % (n + 1);
+        let colors: Vec<Color> = (0..n).map(|j| if j % 2 == 0 { gen::color8(&mut rng) } else { gen::color(&mut rng) }).collect();
+        let (target, mode) = ([OptimizationTarget::Mean, OptimizationTarget::Min][i % 2], [OptimizationMode::Global, OptimizationMode::Local][(i / 2) % 2]);
+        let metric = if i % 3 == 0 { DistanceMetric::CIEDE2000 } else { DistanceMetric::CIE76 };
+        let cs = colors.clone();
+        let res = guard(move || {
+            let mut sa = SimulatedAnnealing::new(
+                &cs,
+                SimulationParameters { initial_temperature: 3.0, cooling_rate: 0.95, num_iterations: 400, opt_target: target, opt_mode: mode, distance_metric: metric, num_fixed_colors: num_fixed },
+            );
+            let mut seen: Vec<Vec<Color>> = vec![];
+            let r = sa.run(&mut |st| seen.push(st.colors.clone()));
+            (sa.get_colors(), r, seen)
+        });
+        s.count_case(&format!("SimulatedAnnealing::new {}", i), true);
+        let inp = || format!("SimulatedAnnealing::new target={:?} mode={:?} metric={} fixed={} colors={:?}", target, mode, metric_name(metric), num_fixed, colors.iter().map(show_color).collect::<Vec<_>>());
+        match res {
+            None => {
+                // one free colour with the min target is the documented panic-free case since ed1b0eb
+                s.fail("no-panic", "SimulatedAnnealing::new/run", inp(), "panic".into());
+            }
+            Some((out, r, mut seen)) => {
+                s.check(out.len() == n, "keeps-number-of-colours", "SimulatedAnnealing::new/run", inp, || format!("{} -> {}", n, out.len()));
+                seen.push(out.clone());
+                for cols in &seen {
+                    for j in 0..num_fixed.min(cols.len()) {
+                        s.check(cols[j].to_hsla() == colors[j].to_hsla(), "fixed-colours-unchanged", "SimulatedAnnealing::new/run", inp, || format!("fixed colour {} became {}", j, show_color(&cols[j])));
+                    }
+                    for j in num_fixed..cols.len().min(n) {
+                        if cols[j].to_hsla() != colors[j].to_hsla() {
+                            let q = cols[j].to_rgba();
+                            s.check(q.alpha == 1.0 && Color::from_rgb(q.r, q.g, q.b).to_hsla() == cols[j].to_hsla(), "replaced-colours-opaque-8bit", "SimulatedAnnealing::new/run", inp, || format!("colour {} is {}", j, show_color(&cols[j])));
+                        }
+                    }
+                }
+                let labs: Vec<pastel::Lab> = out.iter().map(|c| c.to_lab()).collect();
+                oracle(s, "SimulatedAnnealing::new/run", &labs, metric, num_fixed, &r, &inp());
+            }
+        }
+    }
+
     // ---- distinct_colors: n colours out, fixed ones are the prefix (real RNG; 300k iterations) ----
     let runs = if ctx.thorough { 10 } else { 4 };
     for i in 0..runs {
